@@ -31,6 +31,7 @@ var (
 	_ = socketcan.Dial
 	_ = candebug.ServeMessagesHTTP
 	_ = canrunner.Run
+	_ = cantext.MessageString
 )
 
 // Generated code. DO NOT EDIT.
